@@ -1340,6 +1340,11 @@ func (s *Netceptor) SendMessageWithHopsToLive(fromService string, toNode string,
 	if strings.EqualFold(toNode, "localhost") {
 		toNode = s.nodeID
 	}
+	if toNode == s.nodeID {
+		// the message itself is handed to a socket of this node, whose reader copies the payload out after this
+		// call has returned: it must not share the caller's buffer
+		data = append([]byte(nil), data...)
+	}
 	md := &MessageData{
 		FromNode:    s.nodeID,
 		FromService: fromService,
